@@ -908,6 +908,13 @@ impl Sim for PyViewSim {
         vec!["negative-index-used", "motif-wider-than-spare-rows(matrix-grows)"]
     }
 
+    fn components(_prop: &str) -> (Vec<String>, Vec<String>) {
+        (
+            vec!["lightmotif-py extension module (all pyclasses) inside an embedded CPython 3.11".into(), "lightmotif core".into(), "CPython memoryview / buffer protocol".into()],
+            vec!["allocator of the Rust side (SimAlloc); Python's own allocator is real".into()],
+        )
+    }
+
     fn assumptions(_prop: &str) -> Vec<String> {
         vec![
             "Logical-content models are built on the Rust side with the core library from the same inputs (CountMatrix::from_sequences, to_freq(0.0).to_weight(None).to_scoring(), to_score_distribution, brute-force f32 scores); float comparisons use a 1e-4 relative band, enough to tell which cell a value came from.".into(),
